@@ -133,6 +133,9 @@ type Interp struct {
 	bigMat     map[int]sliceV
 	stack      []string
 	initDepth  int
+	bulkTpl    map[*ssa.Alloc]array
+	pcLits     map[int]bool // term IDs of literals on the path condition
+	pcSeen     int
 }
 
 type pathEnd struct {
@@ -339,6 +342,8 @@ func (in *Interp) resetPath() {
 	in.bigMat = nil
 	in.stack = nil
 	in.initDepth = 0
+	in.pcLits = nil
+	in.pcSeen = 0
 }
 
 func (in *Interp) runPath(fn *ssa.Function) (end pathEnd) {
@@ -443,6 +448,13 @@ func (in *Interp) fork(alts []*smt.Term, label string) int {
 		panic(fmt.Sprintf("fork on symbolic condition in concrete mode: %s: %s", label, alts[0]))
 	}
 	in.expose(alts...)
+	// literals already on the path condition decide the fork without the solver (deterministic, so re-execution agrees)
+	in.indexPC()
+	for i, a := range alts {
+		if in.pcLits[a.ID] {
+			return i
+		}
+	}
 	if in.pos < len(in.decisions) {
 		d := in.decisions[in.pos]
 		if in.pos >= in.replayRegions-1 {
@@ -456,7 +468,7 @@ func (in *Interp) fork(alts []*smt.Term, label string) int {
 	}
 	var feas []int
 	for i, a := range alts {
-		if a.IsFalse() {
+		if a.IsFalse() || in.pcLits[in.ctx.Not(a).ID] {
 			continue
 		}
 		// last alternative is feasible for free if nothing else was (PC is satisfiable and alts are exhaustive)
@@ -486,6 +498,25 @@ func (in *Interp) fork(alts []*smt.Term, label string) int {
 	in.pc = append(in.pc, alts[d.taken])
 	in.noteBound(alts[d.taken])
 	return d.taken
+}
+
+// indexPC records the literals (conjuncts) of the path condition added since the last call.
+func (in *Interp) indexPC() {
+	if in.pcLits == nil {
+		in.pcLits = map[int]bool{}
+	}
+	var add func(t *smt.Term)
+	add = func(t *smt.Term) {
+		in.pcLits[t.ID] = true
+		if t.Op == "and" {
+			for _, a := range t.A {
+				add(a)
+			}
+		}
+	}
+	for ; in.pcSeen < len(in.pc); in.pcSeen++ {
+		add(in.pc[in.pcSeen])
+	}
 }
 
 // branch decides a boolean condition.
